@@ -111,9 +111,10 @@ static Str gen_string(ByteSource& in, int base, CaseInfo& ci, bool allow_ws, siz
   if (k == 1) {   // must-reject: put a character that can never be a digit (or a digit >= base) somewhere
     int eff = base; if (base == 0) eff = 10;
     static const char never[] = "!@#$%^&*_=,.;:?~()[]{}<>|\\\"'`/"; char bad;
-    unsigned w = in.pick({3, 2}); if (w == 1 && base != 0 && base < 62) { bad = ALPHA62[base <= 36 ? (unsigned)in.range(base, 35 < base ? base : 35) : (unsigned)in.range(base, 61)]; if (base <= 36 && digit_value(base, (unsigned char)bad) < base) bad = '!'; } else bad = never[in.range(0, sizeof never - 2)];
+    unsigned w = in.pick({3, 2, 2}); if (w == 1 && base != 0 && base < 62) { bad = ALPHA62[base <= 36 ? (unsigned)in.range(base, 35 < base ? base : 35) : (unsigned)in.range(base, 61)]; if (base <= 36 && digit_value(base, (unsigned char)bad) < base) bad = '!'; } else if (w == 2) { bad = (char)(unsigned char)in.range(0x80, 0xff); ci.label("invalid_char:high_bit_byte"); } else bad = never[in.range(0, sizeof never - 2)];
     // not at position 0 when it is '+' (a leading plus is left unspecified)
     size_t pos = (size_t)in.range(0, r.s.size());
+    { size_t z = r.s.find('0'); if (z != std::string::npos && in.chance(100)) { while (z < r.s.size() && (r.s[z] == '0' || (allow_ws && strchr(WS, r.s[z]) && r.s[z]))) z++; pos = z; ci.label("invalid_char_after_leading_zeros"); } }   // right after a run of zeros (the parser's zero-skipping loop)
     r.s.insert(r.s.begin() + pos, bad); r.status = -1; ci.label("invalid_char"); (void)eff;
     if (pos == r.s.size() - 1) ci.label("invalid_char_at_end"); if (pos == 0) ci.label("invalid_char_at_start");
     return r; }
@@ -215,5 +216,5 @@ static void check(ByteSource& in, CaseInfo& ci) {
 namespace eng {
 PropDef g_prop = {"C06",
   "Cases: mpz_get_str (exact sizeinbase+2 buffer or NULL), mpz_out_str via open_memstream, mpz_sizeinbase; mpn_get_str (bases 2..256, exact 'largest possible + 1' buffer); mpz_set_str / mpz_init_set_str on must-accept strings from a grammar (optional white space, sign, base-0 prefixes 0x 0X 0b 0B 0, mixed case for bases <= 36, maximal digits, leading zeros, embedded and trailing white space) and must-reject strings (an impossible character or a digit >= base inserted at any position, empty / blank / lone sign); mpz_inp_str via fmemopen with leading white space and a terminator; get_str -> set_str / inp_str round trip; mpn_set_str (raw digits, exact room when the top digit is non-zero); mpq_set_str / mpq_get_str. Bases 2..62, -2..-36, 0. Values by limb count around GET_STR thresholds, digit counts around SET_STR thresholds, base^k, base^k+-1, big_base^k+-1. Oracle: refint radix conversion; manual's alphabets and return codes; strings whose status the manual leaves open (white space after a sign, lone prefix, leading '+') are not generated. Non-trivial: >= 2 limbs or >= 20 characters. Distinct = hash of all decoded choices.",
-  check, nullptr, {"negative_base", "get_str:dc", "get_str:precompute", "set_str:dc", "set_str:precompute", "base0", "invalid_char", "invalid_char_at_end", "invalid_char_at_start", "embedded_whitespace", "leading_zeros", "inp_str:no_digits", "sizeinbase_one_too_big"}};
+  check, nullptr, {"negative_base", "get_str:dc", "get_str:precompute", "set_str:dc", "set_str:precompute", "base0", "invalid_char", "invalid_char_at_end", "invalid_char_at_start", "invalid_char:high_bit_byte", "invalid_char_after_leading_zeros", "embedded_whitespace", "leading_zeros", "inp_str:no_digits", "sizeinbase_one_too_big"}};
 }
